@@ -142,9 +142,15 @@ fn observe(k: usize, case: &Value, text: &str, o: &run::Outcome, krate: &rsproj:
 
 /// `flip` exchanges the alphabetical order of the two module names, so that over the batches
 /// the EXTENSIBILITY IMPLIED module is generated both before and after its neighbour
-fn module(implied: bool, flip: bool, body: &str) -> String {
+fn module(implied: bool, flip: bool, body: &str, tags: Option<&str>) -> String {
+    // the header points of the model give the TAGS clause (or none); the main sweep says AUTOMATIC TAGS
+    let tags = match tags {
+        Some("none") => String::new(),
+        Some(t) => format!("{t} TAGS "),
+        None => "AUTOMATIC TAGS ".into(),
+    };
     format!(
-        "Ext{} DEFINITIONS AUTOMATIC TAGS {}::= BEGIN\n{body}\nEND\n",
+        "Ext{} DEFINITIONS {tags}{}::= BEGIN\n{body}\nEND\n",
         if implied != flip { "Zz" } else { "Aa" },
         if implied { "EXTENSIBILITY IMPLIED " } else { "" }
     )
@@ -157,21 +163,26 @@ fn run_batch(base: usize, cases: &[Value], force_flip: Option<bool>) -> Vec<Valu
         .iter()
         .enumerate()
         .map(|(i, c)| {
-            let (o, ir) = run::compile_rasn(&[module(c["implied"].as_bool().unwrap(), false, &texts[i])], run::default_config());
+            let (o, ir) = run::compile_rasn(&[module(c["implied"].as_bool().unwrap(), false, &texts[i], c["tags"].as_str())], run::default_config());
             let krate = rsproj::project(&o.generated);
-            observe(base + i, c, &texts[i], &o, &krate, &ir)
+            let mut ev = observe(base + i, c, &texts[i], &o, &krate, &ir);
+            if let Some(t) = c["tags"].as_str() {
+                ev["tags"] = json!(t);
+                ev["asn"] = json!(module(c["implied"].as_bool().unwrap(), false, &texts[i], Some(t)).replace('\n', " "));
+            }
+            ev
         })
         .collect();
     // 2. the accepted ones together, in two neighbouring modules (EXTENSIBILITY IMPLIED / not); the
     //    alphabetical order of the two module names alternates from batch to batch, so that each
     //    module is generated both before and after its neighbour
-    let good: Vec<usize> = (0..cases.len()).filter(|i| events[*i]["status"] == "ok").collect();
+    let good: Vec<usize> = (0..cases.len()).filter(|i| events[*i]["status"] == "ok" && cases[*i]["tags"].is_null()).collect();
     let flip = force_flip.unwrap_or((base / cases.len().max(1)) % 2 == 1);
     let mut srcs = vec![];
     for imp in [false, true] {
         let b: Vec<String> = good.iter().filter(|i| cases[**i]["implied"].as_bool().unwrap() == imp).map(|i| texts[*i].clone()).collect();
         if !b.is_empty() {
-            srcs.push(module(imp, flip, &b.join("\n")));
+            srcs.push(module(imp, flip, &b.join("\n"), None));
         }
     }
     if srcs.len() == 2 {
